@@ -322,6 +322,20 @@ func (g *gen) action(a *Asm, idx int) Action {
 		a.PushAddr(ContractAddr(lib)).Push(600000).Op(op, vm.POP)
 		return Action{op.String(), []string{fmt.Sprintf("C%d", lib), "0", "600000", "0", "0", "0", "0", "pop"}}
 	}
+	if g.chance(8) {
+		// the same contract is called two or three times in a row, each time with value: an account that
+		// self-destructs is paid again afterwards and self-destructs again within one transaction
+		t := g.pick(NContracts)
+		n := 2 + g.pick(2)
+		val := big.NewInt(int64(1 + g.pick(1000)))
+		if g.chance(30) {
+			val = new(big.Int).Set(params.MinQuaiConversionAmount)
+		}
+		for i := 0; i < n; i++ {
+			a.Push(0).Push(0).Push(0).Push(0).PushBig(val).PushAddr(ContractAddr(t)).Push(300000).Op(vm.CALL, vm.POP)
+		}
+		return Action{"CALL-REPEATED", []string{fmt.Sprintf("C%d", t), val.String(), "300000", fmt.Sprint(n)}}
+	}
 	switch {
 	case w < 14:
 		k, v := Slots[g.pick(len(Slots))], uint64(g.pick(3))
@@ -586,6 +600,16 @@ func (g *gen) contract(idx int) ([]byte, []Action) {
 			a.Raw([]byte{0xfe})
 			plan = append(plan, Action{"INVALID", nil})
 		}
+		return a.B, plan
+	}
+	if g.chance(14) {
+		// a contract whose only purpose is to destroy itself (possibly after one more action)
+		if g.chance(40) {
+			plan = append(plan, g.action(a, idx))
+		}
+		to, name := g.target(idx)
+		a.PushAddr(to).Op(vm.SELFDESTRUCT)
+		plan = append(plan, Action{"SELFDESTRUCT", []string{name}})
 		return a.B, plan
 	}
 	n := 1 + g.pick(6)
